@@ -5,7 +5,10 @@
    A sheet is a sequence of tokens  [k |-> kind, s |-> spelling, v |-> bare name, col |-> <<r, g, b>> or <<>>]  written
    with one blank between neighbours (so the simple selectors of a run are joined by descendant
    combinators, or by a child combinator where a `>` stands between them).  Kinds:
-     ident class hash star gt comma lbrace rbrace semi colon at lround rround lsq rsq func str num bang cdo cdc
+     ident class hash star gt plus tilde comma lbrace rbrace semi colon at lround rround lsq rsq func str num bang cdo cdc
+   (plus, tilde: the sibling combinators `+` and `~`, which the library does not implement; they are no selector
+   kind, so parse_selector stops in front of them, the rule set fails at the missing `{` and is skipped as an
+   invalid rule set - and the reference drops a rule set whose prelude is no selector list it knows)
 
    Two descriptions:
      Sheet(T)     the transcription of parse_stylesheet: many0(parse_statement) with
